@@ -33,7 +33,8 @@ HEALTH = {"accepted": 0.012, "class:invalid_by_construction": 1600}
 FUZZ = {"target": "fuzz/fuzz_asm.py", "seconds": {"quick": 0, "thorough": 180}}
 EXHAUSTIVE = {"quick": ["invalid-by-construction operand list x all 139 mnemonics",
                         "every single-character deletion and duplication of 120 base operands x 12 mnemonics",
-                        "every ordered pair of 34 forms naming one label x 3 label addresses"],
+                        "every ordered pair of 34 forms naming one label x 3 label addresses",
+                        "every valid operand in lower and alternating case x 12 mnemonics"],
               "thorough": ["invalid-by-construction operand list x all 139 mnemonics",
                            "every single-character deletion and duplication of 120 base operands x 12 mnemonics"]}
 
@@ -291,6 +292,15 @@ def enumerated(tier, seed):
         for a in _PAIR_FORMS:
             for b in _PAIR_FORMS:
                 yield dict(mn=a[0], op=a[1], cls="pair", pair=dict(org=org, mn2=b[0], op2=b[1]))
+    # the same operands in lower and mixed case: accepted or not is the tool's choice, but an accepted one must mean
+    # what its upper-case spelling means
+    for mn in MUT_MNEMONICS:
+        for base in VALID:
+            if base.lower() != base:
+                yield dict(mn=mn, op=base.lower(), cls="lowercase")
+                mixed = "".join(c.lower() if i % 2 else c for i, c in enumerate(base))
+                if mixed not in (base, base.lower()):
+                    yield dict(mn=mn, op=mixed, cls="lowercase")
     for mn in MUT_MNEMONICS:
         for base in _BASE120:
             for i in range(len(base)):
